@@ -539,3 +539,118 @@ func ruleUnconditionalRecursion(c *Ctx, rule string, roots []*ssa.Function, why 
 		}
 	}
 }
+
+// ruleGroupOptionOrder: Group.New builds the router with the group's options followed by the call's own, so that an
+// option given to New overrides the group-wide one (lock, URL domain, CORS, recovery, TRACE handler alike).
+func ruleGroupOptionOrder(c *Ctx, rule string) {
+	c.R.Rule(c.R.Property+"."+rule, 1, "a router created by Group.New is configured as NewRouter(group options…, own options…): its own options win")
+	gn := c.P.MustFunc("mux.(*Group).New")
+	newRouter := c.P.MustFunc("mux.NewRouter")
+	found := false
+	an.AllInstrs(gn, func(in ssa.Instruction) {
+		call, ok := calleeIs(in, newRouter)
+		if !ok {
+			return
+		}
+		found = true
+		t := c.O.Of(call.Args[len(call.Args)-1])
+		ops := an.FlattenConcat(t)
+		good := len(ops) == 2 && ops[0].String() == "recv.options" && ops[1].String() == "param:o"
+		c.R.Add(rule, c.fk(gn), "call:mux.NewRouter/options=group++own", c.pos(in), good, ifelse(good, "Concat(g.options, o)", "Group.New passes "+t.String()+" as options: the group-wide options override the ones given to New (or are lost)"))
+	})
+	if !found {
+		c.R.Add(rule, c.fk(gn), "call:mux.NewRouter/options=group++own", c.P.Pos(gn.Pos()), false, "Group.New no longer builds the router with NewRouter")
+	}
+}
+
+// ruleOptionClosuresStore: an option that carries one value stores it on every path ("the last one given wins",
+// nil / zero included): a guard in front of the store makes a later WithX(zero) unable to undo an earlier WithX(v).
+func ruleOptionClosuresStore(c *Ctx, rule string) {
+	c.R.Rule(c.R.Property+"."+rule, 1, "the last option given wins: a single-value option stores its argument unconditionally")
+	for _, p := range c.libFuncs() {
+		if !strings.HasPrefix(an.FuncKey(p), "mux.With") || p.Parent() != nil {
+			continue
+		}
+		an.AllInstrs(p, func(in ssa.Instruction) {
+			mc, ok := in.(*ssa.MakeClosure)
+			if !ok {
+				return
+			}
+			fn, _ := mc.Fn.(*ssa.Function)
+			if fn == nil || len(fn.Params) != 1 {
+				return
+			}
+			// a closure whose only effect is a store of a captured parameter into a field of its argument
+			var stores []ssa.Instruction
+			other := false
+			an.AllInstrs(fn, func(x ssa.Instruction) {
+				switch y := x.(type) {
+				case *ssa.Store:
+					if fa, ok := y.Addr.(*ssa.FieldAddr); ok && strings.HasPrefix(an.AP(fa.X), "p:") {
+						stores = append(stores, x)
+					} else {
+						other = true
+					}
+				case *ssa.Call, *ssa.MapUpdate:
+					other = true
+				}
+			})
+			if len(stores) != 1 || other {
+				return
+			}
+			path := (&an.Query{Target: func(t ssa.Instruction) bool { _, ok := t.(*ssa.Return); return ok }, Block: func(t ssa.Instruction) bool { return t == stores[0] }}).Search(an.Entry(fn))
+			c.R.Add(rule, c.fk(p), "option-closure/stores-on-every-path", c.pos(stores[0]), path == nil, ifelse(path == nil, "the option value is stored unconditionally", "the option stores its value only under a condition: a later "+strings.TrimPrefix(an.FuncKey(p), "mux.")+"(zero value) no longer overrides an earlier one (recovery cannot be switched off again: panics are swallowed instead of reaching the caller)"))
+		})
+	}
+}
+
+// ruleStoredListsAreCopies: a middleware list received as a parameter and kept in a Prefix / Resource / Router is
+// copied first (slices.Clone / Concat / append onto an owned slice): the caller may reuse its slice.
+func ruleStoredListsAreCopies(c *Ctx, rule string) {
+	c.R.Rule(c.R.Property+"."+rule, 1, "middleware lists that are kept are copies of the caller's slice")
+	for _, f := range c.libFuncs() {
+		if !strings.HasPrefix(an.FuncKey(f), "mux.") {
+			continue
+		}
+		an.AllInstrs(f, func(in ssa.Instruction) {
+			st, ok := in.(*ssa.Store)
+			if !ok {
+				return
+			}
+			fa, ok := st.Addr.(*ssa.FieldAddr)
+			if !ok || !isMiddlewareSlice(st.Val.Type()) {
+				return
+			}
+			_ = fa
+			par, isPar := st.Val.(*ssa.Parameter)
+			if !isPar {
+				return
+			}
+			c.R.Add(rule, c.fk(f), "keeps:"+an.AP(par)+"/copied", c.pos(in), false, "the caller's middleware slice is stored as it is: when the caller later rewrites or reuses that slice, routes registered afterwards run other middlewares")
+		})
+	}
+	// positive instances: stores of cloned / concatenated lists
+	n := 0
+	for _, f := range c.libFuncs() {
+		if !strings.HasPrefix(an.FuncKey(f), "mux.") {
+			continue
+		}
+		an.AllInstrs(f, func(in ssa.Instruction) {
+			st, ok := in.(*ssa.Store)
+			if !ok || !isMiddlewareSlice(st.Val.Type()) {
+				return
+			}
+			if _, ok := st.Addr.(*ssa.FieldAddr); !ok {
+				return
+			}
+			if call, ok := st.Val.(*ssa.Call); ok {
+				switch an.CalleeName(&call.Call) {
+				case "slices.Clone", "slices.Concat", "builtin:append":
+					n++
+					c.R.Add(rule, c.fk(f), "keeps:"+shortCallee(an.CalleeName(&call.Call))+"/copied", c.pos(in), true, "the kept list is a fresh slice")
+				}
+			}
+		})
+	}
+	_ = n
+}
